@@ -7,6 +7,8 @@ use vstd::utf8::*;
 use vstd::std_specs::hash::*;
 use vstd::std_specs::btree::key_obeys_cmp_spec;
 use vstd::set_lib::*;
+use vstd::std_specs::char::is_white_space;
+use std::cmp;
 use std::collections::{BTreeMap, HashMap, HashSet};
 //@include prelude/bn_stubs.rs
 
@@ -15,15 +17,19 @@ verus! {
 //@include prelude/bn_model.rs
 //@include prelude/std_model.rs
 //@include spec/syntax.rs
+//@include spec/grammar.rs
+//@include spec/lex.rs
 //@include spec/ctl.rs
 //@include spec/lowlevel.rs
 //@include spec/sem.rs
 //@include spec/sem_arms.rs
 //@include spec/evalctx_types.rs
 //@include spec/strmap.rs
+//@include spec/rename.rs
 //@include spec/evalctx.rs
 //@include spec/api.rs
 //@include spec/names.rs
+//@include spec/plain.rs
 //@fmtfns
 
 //@assume eval_node
@@ -37,6 +43,12 @@ verus! {
 //@verify collect_unique_hctl_vars_recursive
 //@verify collect_unique_hctl_vars
 //@verify check_hctl_var_support
+//@assume parse_and_minimize_hctl_formula
+//@verify parse_and_validate
+//@verify _model_check_multiple_formulae_dirty
+//@verify model_check_multiple_formulae_dirty
+//@verify _model_check_formula_dirty
+//@verify model_check_formula_dirty
 
 fn main() {}
 } // verus!
